@@ -1421,6 +1421,17 @@ class Interp:
                     mod.add(pl['l'])
                     if not pl['p']:
                         assigned.add(pl['l'])
+        # closures called in the loop (lowered iterator consumers, closures stepped by hand): what they captured by
+        # mutable reference may change on every way round, although the borrow was taken before the loop
+        for b in body:
+            t = fn.blocks[b]['term']
+            if t[0] == 'call' and (t[1].get('callee') == '#call_closure' or (t[1].get('callee') or '').startswith('std::ops::Fn')):
+                for root, through_deref in self.closure_mut_captures(fn, t[2][0] if t[2] else None):
+                    if through_deref:
+                        deref_written.add(root)
+                        deref_assigned.add(root)
+                    else:
+                        mod.add(root)
         # a pointer temporary that is itself (re)assigned inside the loop and written through, e.g. the raw pointer copied
         # out of a Box for `(*p)[i] = v`: the object written is the one the temporary was copied / borrowed from
         changed = True
@@ -1452,6 +1463,34 @@ class Interp:
                         mod.add(root)
                         changed = True
         return (sorted(mod), sorted(deref_written), assigned, deref_assigned)
+
+    def closure_mut_captures(self, fn, op, depth=0):
+        """locals (root, reached through a dereference?) that the closure held in operand `op` captured by mutable
+        reference: follow the operand back to the `agg closure` that built it and its `&mut` operands to their places"""
+        out = []
+        if not op or op[0] not in ('move', 'copy') or depth > 6:
+            return out
+        l = op[1]['l']
+        for blk in fn.blocks:
+            for s_ in blk['stmts']:
+                if s_[0] != 'assign' or s_[1]['l'] != l or s_[1]['p']:
+                    continue
+                rv = s_[2]
+                if rv[0] == 'use' and rv[1][0] in ('move', 'copy'):
+                    out += self.closure_mut_captures(fn, rv[1], depth + 1)
+                elif rv[0] == 'ref' and isinstance(rv[2], dict) and not rv[2]['p']:
+                    out += self.closure_mut_captures(fn, ['copy', rv[2]], depth + 1)       # &mut closure_local
+                elif rv[0] == 'agg' and isinstance(rv[1], dict) and 'closure' in rv[1]:
+                    for cap in rv[2]:
+                        if cap[0] not in ('move', 'copy'):
+                            continue
+                        cl = cap[1]['l']
+                        for blk2 in fn.blocks:
+                            for s2 in blk2['stmts']:
+                                if s2[0] == 'assign' and s2[1]['l'] == cl and not s2[1]['p'] and s2[2][0] == 'ref' and s2[2][1]:
+                                    tgt = s2[2][2]
+                                    out.append((tgt['l'], any(e[0] == 'deref' for e in tgt['p'])))
+        return out
 
     def havoc(self, st, fr, hav, head, inst=0):
         """replace the modified scalars by fresh variables; returns [(fresh var, entry value)]"""
@@ -1828,6 +1867,17 @@ class Interp:
         if name is None:
             # call through a function value (closure held in a local)
             fv = self.operand(st, fr, c['func'])
+            while isinstance(fv, Ref):
+                fv = self.load(st, fv.cell, fv.path)
+            if isinstance(fv, tuple) and fv and fv[0] == 'fnitem':
+                # a function handed around as a value (fn pointer / generic F instantiated with a function item)
+                lf = self.crate.fns.get(fv[1])
+                c2 = dict(c, callee=fv[1], resolved=fv[1], local=lf is not None, generics=list(fv[2]) if len(fv) > 2 else [])
+                return self.do_call(st, fr, ['call', c2, argops, dest, target, line, t[6]], work, out)
+            if isinstance(fv, Clo):
+                cfn = self.crate.fns.get(fv.path)
+                if cfn is not None:
+                    return self.call_closure_shim(st, fr, cfn, [fv, Tup(args)], dest, target, out)
             raise Unanalysable('indirect call in %s' % fn.path, site)
         if name == '#call_closure':
             return self.call_closure_value(st, fr, t, args, work, out)
